@@ -7,6 +7,7 @@ import common as C
 import verde as vd
 
 ID = "C17"
+TRANSLATED = "coords"      # Gen/Coords.lean is regenerated from /repo by py2lean.py and bridged to the model in Props/C17.lean
 FILES = ["verde/coordinates.py"]
 RULE = ("exhaustive 5-degree (quick: 15-degree) lattice of (W, E) in [-180, 360]^2 with |E-W| <= 360, each with a lattice of longitudes, "
         "plus seeded off-lattice dyadic (k/8 degree) bounds/longitudes and out-of-range inputs; all values are dyadic so float '%' is exact "
